@@ -150,6 +150,12 @@ def work(ctx):
         if ncases < (90 if ctx.quick else 1200) and ninstr < 120:
             try:
                 ctx.case("ser_res ser_pycode (from_code_data cfg %s)" % E.g_cd(d), tres(r, E.t_pycode), "from_code_data of %s" % what, "encode-hand-built")
+                # premise (blocks_wf) and conclusions of the K2 code theorem on this generated data, evaluated inside Coq
+                ctx.case("(let d := %s in match blocks_to_bytes key_eqb is_str_const (KInner INone) (fun s => KInner (IStr s)) cfg (cd_blocks d) [] (cd_freevars d) (cd_type d) with "
+                         "| OK (code, lm, names, varnames, cellvars, consts) => ser_bool (blocks_wf cfg (cd_blocks d)) ++ ser_bool (code_ok cfg code) ++ "
+                         "ser_bool (list_eqb (fun (x y : vinstr const) => (v_op x =? v_op y) && val_match key_eqb (v_val x) (v_val y)) (data_view (cd_blocks d)) "
+                         "(dis_view cfg code names varnames (cd_freevars d) cellvars consts [] 0)) | Err _ => [2] end)" % E.g_cd(d),
+                         [1, 1, 1], "blocks_wf and K2 conclusion on %s" % what, "wf-monitor")
                 ncases += 1
             except E.Unsupported:
                 pass
